@@ -12,6 +12,7 @@ from hxv.ref import resample as rr
 from hxv.runner import Shard
 
 PROP = "C09"
+FUZZ = {"shards": ["RSI", "STOCH", "ADX", "TSI"], "procs_per_shard": 2, "runs": 150000, "seconds": 420}
 RULE = (
     "case = (any shipped indicator class or analysis wrapper, periods 2..15, input price field or volume, timeframe/fill, "
     "batch or appended in chunks; stream built from 1-4 segments biased to the degenerate regimes: flat from the start, flat "
